@@ -148,12 +148,29 @@ class Emitter:
             self.w('  > {};')
         self.w('};')
 
-    def emit_machine(self, m, is_root):
+    def emit_forward(self, m, parent):
+        """back11: contained machines name their enclosing machine as UpperFsm (get_upper()); needs the types up front"""
         name = m['name']
+        self.w('struct %s_;' % name)
+        if parent is None:
+            self.w('typedef RT_BACK(%s_, %s) %s;' % (name, self.hist_back(m), name))
+        else:
+            self.w('typedef RT_BACK_UP(%s_, %s, %s) %s;' % (name, self.hist_back(m), parent, name))
         for sname in S.state_order(m):
             st = m['states'][sname]
             if st['kind'] == 'sub':
-                self.emit_machine(st['machine'], False)
+                self.emit_forward(st['machine'], name)
+
+    def emit_machine(self, m, is_root, parent=None):
+        name = m['name']
+        if is_root:
+            self.w('#if CFG == 4')
+            self.emit_forward(m, None)
+            self.w('#endif')
+        for sname in S.state_order(m):
+            st = m['states'][sname]
+            if st['kind'] == 'sub':
+                self.emit_machine(st['machine'], False, name)
             else:
                 self.emit_state(sname, st)
         idx = self.sidx[name]
@@ -210,7 +227,10 @@ class Emitter:
             if m.get('serialize'):
                 self.w('  typedef int do_serialize; template<class Ar> void serialize(Ar& ar, const unsigned int){ ar & data; }')
         self.w('};')
-        self.w('typedef RT_BACK(%s_, %s) %s;' % (name, self.hist_back(m), name))
+        if is_root:
+            self.w('typedef RT_BACK(%s_, %s) %s;' % (name, self.hist_back(m), name))
+        else:
+            self.w('typedef RT_BACK_UP(%s_, %s, %s) %s;' % (name, self.hist_back(m), parent, name))
         if not is_root:
             self.w('#if CFG == 2')
             self.w('} BOOST_MSM_BACK_GENERATE_PROCESS_EVENT(gen::%s) namespace gen {' % name)
